@@ -366,9 +366,71 @@ func full2(n int) []int {
 	return s
 }
 
+// buildRedelivery: a stored block ABOVE the best height is delivered again. Branch a (a1..a6) is longer, branch b
+// (b1..b4) gets justified by a skip link root>b4 and becomes best (height 4): a5, a6 stay stored above it. a6 then
+// arrives again carrying forged / foreign header signatures: they must not count, neither at once nor when a
+// restart merges the stored header back and one genuine vote follows.
+func buildRedelivery() *fam {
+	net := labnet.Setup(2, 2, 4)
+	net.SetLocalKey(labnet.OutsiderKey())
+	net.AddKey(labnet.OutsiderKey())
+	w := chainlab.NewWorld(net, net.Gen, nil)
+	w.NVal = 4
+	var a, b [7]int
+	for i := 1; i <= 6; i++ {
+		a[i] = w.AddBlock(a[i-1], fmt.Sprintf("a%d", i), labnet.BlockOpt{})
+	}
+	for i := 1; i <= 4; i++ {
+		b[i] = w.AddBlock(b[i-1], fmt.Sprintf("b%d", i), labnet.BlockOpt{Tag: 1})
+	}
+	f := &fam{W: w, n: -2}
+	add := func(e chainlab.Event) int {
+		e.Name = ""
+		e.Name = e.String()
+		if e.Kind == chainlab.EvBlock {
+			e.Name = "B:" + w.Names[e.Block]
+		}
+		w.Events = append(w.Events, e)
+		return len(w.Events) - 1
+	}
+	B := func(x int) int { return add(chainlab.Event{Kind: chainlab.EvBlock, Block: x}) }
+	V := func(v, s, t int) int { return add(chainlab.Event{Kind: chainlab.EvVote, Val: v, Src: s, Tgt: t}) }
+	R := func() int { return add(chainlab.Event{Kind: chainlab.EvRestart}) }
+	all := []int{0, 1, 2, 3}
+	pre := func() []int {
+		h := []int{}
+		for i := 1; i <= 6; i++ {
+			h = append(h, B(a[i]))
+		}
+		for i := 1; i <= 4; i++ {
+			h = append(h, B(b[i]))
+		}
+		return append(h, V(0, 0, b[4]), V(1, 0, b[4]), V(2, 0, b[4]))
+	}
+	hist := func(name string, evs ...int) {
+		f.hists = append(f.hists, evs)
+		f.names = append(f.names, name)
+		f.complete = append(f.complete, false)
+	}
+	forged := func() int {
+		return add(chainlab.Event{Kind: chainlab.EvBlockSL, Block: a[6], Src: 0, Signers: all, BadSig: true})
+	}
+	hist("redelivered-above-best-with-forged-hdr", append(pre(), forged(), R(), V(0, 0, a[6]), B(a[6]))...)
+	hist("redelivered-above-best-with-forged-hdr-no-restart", append(pre(), forged(), V(0, 0, a[6]), R(), V(1, 0, a[6]))...)
+	hist("redelivered-above-best-with-nonvalidator-hdr", append(pre(), add(chainlab.Event{Kind: chainlab.EvBlockSL, Block: a[6], Src: 0, Signers: []int{4}, Slot: 2}), R(), V(0, 0, a[6]), V(2, 0, a[6]))...)
+	hist("redelivered-above-best-plain", append(pre(), B(a[6]), R(), V(0, 0, a[6]))...)
+	return f
+}
+
 func getFam(n int) *fam {
 	if n == 0 {
 		return buildElected()
+	}
+	if n == -2 {
+		if lastFam == nil || lastFam.n != -2 {
+			lastFam = buildRedelivery()
+		}
+		return lastFam
 	}
 	if n == -1 {
 		if lastFam == nil || lastFam.n != -1 {
@@ -440,10 +502,12 @@ func main() {
 	if !run.Thorough() {
 		sizes = []int{1, 2, 3, 4, 5, 6, 7, 8, 9, 10} // every size: the rounding of 2n/3 differs per residue
 	}
-	for _, n := range append([]int{0, -1}, sizes...) {
+	for _, n := range append([]int{0, -1, -2}, sizes...) {
 		var f *fam
 		if n == 0 {
 			f = buildElected()
+		} else if n == -2 {
+			f = buildRedelivery()
 		} else if n == -1 {
 			f = buildMulti(run.Thorough())
 		} else {
